@@ -188,22 +188,22 @@ Proof.
   apply unfaulted_ok; [congruence|]. intros e He. rewrite E in He. destruct He as [He|He]; [now subst e | now apply Hl].
 Qed.
 
-Theorem logged_own_class sp h acts :
-  server_ok sp = true -> spec_ok h = true ->
-  forall o s, server_handle fails c sp h acts = (o, s) -> o = Contained /\ log_ok s.
+Lemma logged_from sp h acts s0 :
+  server_ok sp = true -> spec_ok h = true -> nw s0 = 0 -> log s0 = [] ->
+  forall o s, server_handle_from fails c sp h acts s0 = (o, s) -> o = Contained /\ log_ok s.
 Proof.
-  intros Hsp Hh o s H. unfold server_handle, proto_handle in H.
+  intros Hsp Hh Z0 L0 o s H. unfold server_handle_from, proto_handle in H.
   set (tried := if body_in_try h then acts else prep_part acts) in H.
   set (aft := if body_in_try h then [] else send_part acts) in H.
-  destruct (run_actions tried init_st) as [r1 s1] eqn:R1.
-  assert (N0 : faulted init_st = false) by reflexivity.
-  destruct (run_actions_spec tried init_st r1 s1 N0 R1) as [Q1 M1].
-  pose proof (quiet_no_after init_st s1 eq_refl Q1) as L1.
+  destruct (run_actions tried s0) as [r1 s1] eqn:R1.
+  assert (N0 : faulted s0 = false) by (unfold Conn.faulted; now rewrite Z0).
+  destruct (run_actions_spec tried s0 r1 s1 N0 R1) as [Q1 M1].
+  pose proof (quiet_no_after s0 s1 L0 Q1) as L1.
   destruct r1 as [|[c'| | |]]; try contradiction.
   - (* the tried part went through; the rest runs outside the try *)
     destruct (run_actions aft s1) as [r2 s2] eqn:R2.
     destruct (run_actions_spec aft s1 r2 s2 M1 R2) as [Q2 M2].
-    pose proof (quiet_no_after init_st s2 eq_refl (quiet_trans _ _ _ Q1 Q2)) as L2.
+    pose proof (quiet_no_after s0 s2 L0 (quiet_trans _ _ _ Q1 Q2)) as L2.
     destruct r2 as [|[c'| | |]]; try contradiction.
     + inversion H; subst. split; [reflexivity|]. now apply unfaulted_ok.
     + rewrite server_catch_ok in H by exact Hsp. inversion H; subst. split; [reflexivity|].
@@ -215,7 +215,7 @@ Proof.
     destruct M1 as (-> & N1 & _).
     assert (T : body_in_try h = true).
     { destruct (body_in_try h) eqn:B; [reflexivity|]. exfalso.
-      subst tried. exact (run_prep_no_io acts init_st _ _ R1 c eq_refl). }
+      subst tried. exact (run_prep_no_io acts s0 _ _ R1 c eq_refl). }
     unfold spec_ok in Hh. rewrite T in Hh. simpl in Hh. apply andb_true_iff in Hh as [Hl Hm].
     rewrite Hl in H.
     destruct (add_log_spec (LIO c) true s1) as (E2 & _ & _ & F2). rewrite N1 in E2.
@@ -251,12 +251,52 @@ Proof.
       intros e He Ha. rewrite (L1 e He) in Ha. discriminate.
 Qed.
 
+Theorem logged_own_class sp h acts :
+  server_ok sp = true -> spec_ok h = true ->
+  forall o s, server_handle fails c sp h acts = (o, s) -> o = Contained /\ log_ok s.
+Proof. intros Hsp Hh. exact (logged_from sp h acts init_st Hsp Hh eq_refl eq_refl). Qed.
+
 (* nothing propagates past server.handle, whatever the handler specification *)
+Lemma contained_from sp h acts s0 : server_ok sp = true ->
+  fst (server_handle_from fails c sp h acts s0) = Contained.
+Proof.
+  intros Hsp. unfold server_handle_from. destruct (proto_handle fails c h acts s0) as [[|x] s]; [reflexivity|].
+  now rewrite server_catch_ok.
+Qed.
 Theorem contained sp h acts : server_ok sp = true ->
   fst (server_handle fails c sp h acts) = Contained.
+Proof. intros Hsp. exact (contained_from sp h acts init_st Hsp). Qed.
+
+(* ---- the classification phase ---- *)
+Lemma run_silent : forall pre s, silent pre = true ->
+  exists s', run_actions pre s = (Ok, s') /\ nw s' = nw s /\ log s' = log s /\
+             (forall d, final_depth pre (depth s) = Some d -> depth s' = d).
 Proof.
-  intros Hsp. unfold server_handle. destruct (proto_handle fails c h acts init_st) as [[|x] s]; [reflexivity|].
-  now rewrite server_catch_ok.
+  induction pre as [|a pre IH]; intros s H; simpl in H.
+  - exists s. repeat split. intros d E. simpl in E. now inversion E.
+  - apply andb_true_iff in H as [Ha Hp]. destruct a; try discriminate; simpl.
+    + destruct (IH (St (nw s) (S (depth s)) (refs s) (log s)) Hp) as (s' & R & N & L & D).
+      exists s'. repeat split; assumption.
+    + destruct (IH (St (nw s) (pred (depth s)) (refs s) (log s)) Hp) as (s' & R & N & L & D).
+      exists s'. repeat split; try assumption. intros d E. destruct (depth s) as [|d0]; [discriminate|]. now apply D.
+    + destruct (IH (St (nw s) (depth s) (S (refs s)) (log s)) Hp) as (s' & R & N & L & D).
+      exists s'. repeat split; assumption.
+Qed.
+
+Theorem connection_logged sp h pre acts :
+  server_ok sp = true -> spec_ok h = true -> silent pre = true ->
+  forall o s, connection fails c sp h pre acts = (o, s) -> o = Contained /\ log_ok s.
+Proof.
+  intros Hsp Hh Hs o s H. unfold connection in H.
+  destruct (run_silent pre init_st Hs) as (s0 & R & N & L & _). rewrite R in H.
+  exact (logged_from sp h acts s0 Hsp Hh N L o s H).
+Qed.
+
+Theorem connection_contained sp h pre acts : server_ok sp = true -> silent pre = true ->
+  fst (connection fails c sp h pre acts) = Contained.
+Proof.
+  intros Hsp Hs. unfold connection. destruct (run_silent pre init_st Hs) as (s0 & R & _). rewrite R.
+  now apply contained_from.
 Qed.
 
 (* ---- files ---- *)
@@ -298,14 +338,14 @@ Proof.
       apply IH in H. exact H.
 Qed.
 
-Theorem files_closed sp h acts : balanced acts ->
-  depth (snd (server_handle fails c sp h acts)) = 0.
+Lemma files_closed_from sp h acts s0 : final_depth acts (depth s0) = Some 0 ->
+  depth (snd (server_handle_from fails c sp h acts s0)) = 0.
 Proof.
-  intros B. unfold balanced in B. unfold server_handle.
-  assert (P : forall r s, proto_handle fails c h acts init_st = (r, s) -> depth s = 0).
+  intros B. unfold server_handle_from.
+  assert (P : forall r s, proto_handle fails c h acts s0 = (r, s) -> depth s = 0).
   { intros r s H. unfold proto_handle in H.
     destruct (body_in_try h).
-    - destruct (run_actions acts init_st) as [r1 s1] eqn:R1.
+    - destruct (run_actions acts s0) as [r1 s1] eqn:R1.
       pose proof (run_actions_depth _ _ _ _ R1) as D1.
       destruct r1 as [|x].
       + simpl in H. inversion H; subst. apply D1. exact B.
@@ -317,11 +357,11 @@ Proof.
         * inversion H; subst. exact D1.
         * apply run_nf_depth in H. now rewrite H.
     - rewrite final_depth_split in B.
-      destruct (run_actions (prep_part acts) init_st) as [r1 s1] eqn:R1.
+      destruct (run_actions (prep_part acts) s0) as [r1 s1] eqn:R1.
       pose proof (run_actions_depth _ _ _ _ R1) as D1.
       destruct r1 as [|x].
-      + destruct (final_depth (prep_part acts) 0) as [d1|] eqn:F1; [|discriminate].
-        simpl in D1. specialize (D1 d1 F1).
+      + destruct (final_depth (prep_part acts) (depth s0)) as [d1|] eqn:F1; [|discriminate].
+        simpl in D1. specialize (D1 d1 eq_refl).
         pose proof (run_actions_depth _ _ _ _ H) as D2. destruct r.
         * apply D2. rewrite D1. exact B.
         * exact D2.
@@ -332,9 +372,31 @@ Proof.
         * inversion H; subst. exact D1.
         * inversion H; subst. exact D1.
         * apply run_nf_depth in H. now rewrite H. }
-  destruct (proto_handle fails c h acts init_st) as [[|x] s] eqn:E.
+  destruct (proto_handle fails c h acts s0) as [[|x] s] eqn:E.
   - simpl. now apply (P Ok).
   - rewrite server_catch_depth. now apply (P (Raise x)).
+Qed.
+
+Theorem files_closed sp h acts : balanced acts ->
+  depth (snd (server_handle fails c sp h acts)) = 0.
+Proof. intros B. exact (files_closed_from sp h acts init_st B). Qed.
+
+Lemma final_depth_app : forall a b d,
+  final_depth (a ++ b) d = match final_depth a d with Some d1 => final_depth b d1 | None => None end.
+Proof.
+  induction a as [|x a IH]; intros b d; simpl; [reflexivity|].
+  destruct x; try apply IH. destruct d; [reflexivity | apply IH].
+Qed.
+
+Theorem connection_files_closed sp h pre acts : balanced (pre ++ acts) ->
+  depth (snd (connection fails c sp h pre acts)) = 0.
+Proof.
+  unfold balanced. rewrite final_depth_app. intros B. unfold connection.
+  destruct (run_actions pre init_st) as [r s0] eqn:R.
+  pose proof (run_actions_depth _ _ _ _ R) as D. destruct r as [|x].
+  - destruct (final_depth pre 0) as [d1|] eqn:F; [|discriminate].
+    apply files_closed_from. simpl in D. rewrite (D d1 F). exact B.
+  - exact D.
 Qed.
 End Fault.
 
@@ -354,6 +416,14 @@ Lemma strerror_escape_refuted :
        (log (snd (server_handle (window k (Some 1)) TIMEOUT pinned_server
                    (HSpec true true MStrerror [NfW; NfW; NfW; NfW; NfWEscape; NfW]) acts))).
 Proof. exists [AWrite], 0. vm_compute. tauto. Qed.
+
+(* why the classification phase has to be silent: a write issued from
+   getProtocol (before the try of GopherRequestHandler.handle) that fails leaves
+   the connection handler *)
+Lemma classification_write_escapes :
+  exists pre k, connection (window k None) EPIPE pinned_server (pinned_spec PCHttp) pre [] =
+                (Escaped (XIO EPIPE), St 1 0 0 []).
+Proof. exists [AWrite], 0. reflexivity. Qed.
 
 Lemma pinned_not_ok : map (fun p => spec_ok (pinned_spec p)) all_pclass = [true; false; false; false; true; true].
 Proof. reflexivity. Qed.
